@@ -69,6 +69,8 @@ func checkC15(r *Run) propMeta {
 	cp := r.MustPkg("container")
 	bitmaps := &storedSetAnalysis{r: r, p: p, cg: cg, retStore: map[*types.Func]string{}, busy: map[*types.Func]bool{}, plainFields: false, extraStored: isCacheGet}
 	checkStorageAliasing(r, "C15-R1-cached-set-readonly", newAliasAnalysis(r, cg, p, cp), bitmaps, roots)
+	// the component graph is built with the CSR builder: its offsets must be complete (shared with C14-R6)
+	checkPrefixArraysWrittenEveryIteration(r, cp, "C15-R5-component-graph-offsets")
 	r.Floor("C15-R1-cached-set-readonly", 8)
 
 	// ---- R4 roles
